@@ -192,8 +192,8 @@ func check(c Case) (pbt.Info, error) {
 				return fmt.Errorf("step %d %s: Peek() returned %v although contained %v precedes it", step, what, pk, m)
 			}
 		}
-		if total > 48 && step%8 != 0 && what != "after drain" {
-			return nil // large heaps: the O(n^2) listing is checked every 8th step
+		if total > 48 && step%8 != 0 && what != "after drain" || total > 1500 {
+			return nil // large heaps: the O(n^2) listing is checked every 8th step (and not at all beyond 1500 elements)
 		}
 		for ni, xs := range [][]Item{h.values(), h.iter(), h.rew(step + 1)} {
 			name := []string{"Values()", "iteration", "iteration with the rewound long-lived iterator (" + []string{"Begin+Next", "First+Next", "End+Prev", "Last+Prev"}[(step+1)%4] + ")"}[ni]
@@ -416,7 +416,40 @@ func genLarge(kind string) func(t *rapid.T) Case {
 	}
 }
 
+// genHuge: a heap of thousands of elements (past 2048 and 4096), then ONE bulk push of
+// hundreds to a thousand mostly small-priority items, then pops: bulk strategies that
+// depend on the sizes of the heap and of the batch.
+func genHuge(kind string) func(t *rapid.T) Case {
+	return func(t *rapid.T) Case {
+		c := Case{Kind: kind, Cmp: []string{"min", "max", "minmag", "maxmag"}[rapid.IntRange(0, 3).Draw(t, "cmp")]}
+		n0 := []int{2100, 3000, 4200}[rapid.IntRange(0, 2).Draw(t, "n0")]
+		k := []int{300, 456, 700, 1100}[rapid.IntRange(0, 3).Draw(t, "k")]
+		a, b := rapid.IntRange(0, 1000).Draw(t, "a"), rapid.IntRange(1, 97).Draw(t, "b")
+		base := make([]Item, n0)
+		for i := range base {
+			base[i] = Item{P: 1000 + (a+i*b)%5000, ID: i + 1}
+		}
+		batch := make([]Item, k)
+		for i := range batch {
+			batch[i] = Item{P: (a + i*b) % 7000, ID: n0 + i + 1} // many precede (or follow) everything already there
+		}
+		if rapid.Bool().Draw(t, "build-by-load") {
+			c.Ops = append(c.Ops, Op{O: "load", Is: base})
+		} else {
+			c.Ops = append(c.Ops, Op{O: "push", Is: base})
+		}
+		c.Ops = append(c.Ops, Op{O: "push", Is: batch})
+		for i := rapid.IntRange(1, 60).Draw(t, "pops"); i > 0; i-- {
+			c.Ops = append(c.Ops, Op{O: "pop"})
+		}
+		return c
+	}
+}
+
 func TestGenerated(t *testing.T) {
+	for _, kind := range []string{"binaryheap", "priorityqueue"} {
+		pbt.Run(t, pbt.Target[Case]{Name: kind + "/huge", Checks: 2, Gen: genHuge(kind), Check: check})
+	}
 	for _, kind := range []string{"binaryheap", "priorityqueue"} {
 		pbt.Run(t, pbt.Target[Case]{Name: kind, Checks: 30000, Gen: gen(kind), Check: check})
 		pbt.Run(t, pbt.Target[Case]{Name: kind + "/large", Checks: 150, Gen: genLarge(kind), Check: check})
